@@ -291,20 +291,35 @@ PVAL_FINDING = 'C12-pvalue-pinv-noise'
 CONST_FINDING = 'C12-constant-column-units'
 
 
-def pvalue_noise_terms(gam, bad_terms):
-    """True when, for every listed term, scipy.linalg.pinv keeps (counts in the rank) a singular value of the term's covariance
-    block below 1e-9 of the largest: the Wald score then contains 1/sv times rounding noise (candidate finding S17)"""
+def pinv_kept(gam, t):
+    """(rank decided by scipy.linalg.pinv at its default cut-off max(M,N)*eps*sv0, smallest kept singular value / largest) of the term's covariance block"""
     import scipy.linalg
     cov = np.asarray(gam.statistics_['cov'], dtype=float)
-    for t in bad_terms:
-        idxs = gam.terms.get_coef_indices(t)
-        blk = cov[idxs][:, idxs]
-        sv = np.linalg.svd(blk, compute_uv=False)
-        _, rank = scipy.linalg.pinv(blk, return_rank=True)
-        kept = sv[:rank]
-        if not (len(kept) and kept[-1] < 1e-9 * sv[0]):
-            return False
-    return True
+    idxs = gam.terms.get_coef_indices(t)
+    blk = cov[idxs][:, idxs]
+    sv = np.linalg.svd(blk, compute_uv=False)
+    _, rank = scipy.linalg.pinv(blk, return_rank=True)
+    return int(rank), (float(sv[rank - 1] / sv[0]) if rank and sv[0] > 0 else 0.0)
+
+
+def pvalue_noise_term(ga, gb, t):
+    """Predicate of finding C12-pvalue-pinv-noise for ONE term, the two fits being of y and of c*y (covariance blocks proportional in exact
+    arithmetic): scipy.linalg.pinv's rank decision is made at the rounding level of the block, i.e. (a) in one of the fits it keeps a singular
+    value below 1e-9 of the largest -- far below the accuracy of a covariance computed in binary64 through a solve whose condition number is at
+    least 1e4 (sqrt(eps) ridge), so 1/sv multiplies rounding noise in the Wald score -- or (b) the two fits get different ranks (a singular value
+    crosses the cut-off max(M,N)*eps, which also changes the degrees of freedom of the reference distribution).  Returns the reason or None."""
+    ra, ka = pinv_kept(ga, t)
+    rb, kb = pinv_kept(gb, t)
+    if ra != rb:
+        return 'rank %d vs %d' % (ra, rb)
+    if min(ka, kb) < 1e-9:
+        return 'smallest kept singular value %.2g of the largest' % min(ka, kb)
+    return None
+
+
+def pvalue_noise_terms(gam, bad_terms, other=None):
+    """every listed term satisfies the predicate (used for the recorded witness)"""
+    return all(pvalue_noise_term(gam, other if other is not None else gam, t) is not None for t in bad_terms)
 
 
 S17_X = [[5.140822, 0.0], [6.295206, 1.0], [6.781372, 2.0], [8.132285, 2.0], [4.654245, 0.0], [5.283667, 0.0], [5.59843, 2.0], [5.880602, 1.0],
@@ -432,22 +447,30 @@ def linear_checks(res, scn, X, y, w, c, y2, Xq):
     kfac = np.array([1.0 + math.sqrt(len(g1.terms.get_coef_indices(t))) for t in range(len(p1))])
     ptol = TOL + kfac * (tol_scale - TOL)
     over = [int(t) for t in np.nonzero(~(dp <= ptol))[0]]
-    if over:
-        # (1) the listed defect: pinv keeps a singular value at noise level (< 1e-9 of the largest)
-        noise = pvalue_noise_terms(g1, over) or pvalue_noise_terms(gc, over)
-        if noise:
-            res.violations.append(dict(what='LinearGAM p-values change under y -> c y', finding=PVAL_FINDING, input=inp,
-                                       observed=dict(p_values=p1.tolist(), p_values_scaled=pc.tolist(), terms=over), expected='equal within %g' % TOL))
-            return 'ok' if ok else 'bad'
-        # (2) rounding: relative error 64 eps cond(kept part of the covariance block) of the Wald score
-        ptol2 = np.array([ptol[t] + kfac[t] * 64 * EPS * max(pvalue_cond(g1, t), pvalue_cond(gc, t)) for t in range(len(p1))])
-        bad_terms = [t for t in over if not (dp[t] <= ptol2[t])]
-        res.count('p-values: moved by more than %g but within 64 eps cond(covariance block) (ill-conditioned Wald score, accepted as rounding)' % TOL)
-        if bad_terms:
-            res.violations.append(dict(what='LinearGAM p-values change under y -> c y', finding=None, input=inp,
-                                       observed=dict(p_values=p1.tolist(), p_values_scaled=pc.tolist(), terms=bad_terms,
-                                                     tolerance=[float(ptol2[t]) for t in bad_terms]), expected='equal within tolerance'))
-            ok = False
+    # term by term: (1) the listed defect (pinv's rank decision at rounding level: C12-pvalue-pinv-noise); (2) rounding: relative error
+    # 64 eps cond(kept part of the covariance block) of the Wald score; (3) anything else is a new violation
+    tagged, bad_terms, reasons, tols = [], [], {}, {}
+    for t in over:
+        why = pvalue_noise_term(g1, gc, t)
+        if why is not None:
+            tagged.append(t)
+            reasons[t] = why
+            continue
+        tol2 = float(ptol[t] + kfac[t] * 64 * EPS * max(pvalue_cond(g1, t), pvalue_cond(gc, t)))
+        if dp[t] <= tol2:
+            res.count('p-values: moved by more than %g but within 64 eps cond(covariance block) (ill-conditioned Wald score, accepted as rounding)' % TOL)
+        else:
+            bad_terms.append(t)
+            tols[t] = tol2
+    if tagged:
+        res.violations.append(dict(what='LinearGAM p-values change under y -> c y', finding=PVAL_FINDING, input=inp,
+                                   observed=dict(p_values=p1.tolist(), p_values_scaled=pc.tolist(), terms=tagged, pinv={str(t): reasons[t] for t in tagged}),
+                                   expected='equal within %g' % TOL))
+    if bad_terms:
+        res.violations.append(dict(what='LinearGAM p-values change under y -> c y', finding=None, input=inp,
+                                   observed=dict(p_values=p1.tolist(), p_values_scaled=pc.tolist(), terms=bad_terms,
+                                                 tolerance=[tols[t] for t in bad_terms]), expected='equal within tolerance'))
+        ok = False
     return 'ok' if ok else 'bad'
 
 
@@ -551,7 +574,7 @@ def run(res):
         moved = [int(t) for t in np.nonzero(~(np.abs(p1 - p3) <= TOL))[0]]
         res.case('s17-witness')
         if moved:
-            noise = pvalue_noise_terms(g1, moved) or pvalue_noise_terms(g3, moved)
+            noise = pvalue_noise_terms(g1, moved, other=g3)
             res.violations.append(dict(what='LinearGAM p-values change under y -> c y (recorded witness s17_witness)', finding=PVAL_FINDING if noise else None,
                                        input=dict(fn='harness/props/c12.py:s17_witness', X=S17_X, y=S17_Y, c=3.0),
                                        observed=dict(p_values=p1.tolist(), p_values_scaled=p3.tolist(), prediction_error=perr), expected='equal within %g' % TOL))
